@@ -612,7 +612,7 @@ const parseFlagsT = `var (
 		{{ .FullName }}Flags = flag.NewFlagSet("{{ .Name }}", flag.ExitOnError)
 		{{- $sub := . }}
 		{{- range .Flags }}
-		{{ .FullName }}Flag = {{ $sub.FullName }}Flags.String("{{ .Name }}", "{{ if .Default }}{{ .Default }}{{ else if .Required }}REQUIRED{{ end }}", {{ printf "%q" .Description }})
+		{{ .FullName }}Flag = {{ $sub.FullName }}Flags.String("{{ .Name }}", {{ if .Default }}{{ printf "%v" .Default | printf "%q" }}{{ else if .Required }}"REQUIRED"{{ else }}""{{ end }}, {{ printf "%q" .Description }})
 		{{- end }}
 		{{ end }}
 		{{- end }}
